@@ -184,6 +184,15 @@ func entries() []entry {
 		{"ServeHTTP trailing slash", serve("GET", "", "/s/a/")},
 		{"ServeHTTP trailing slash POST", serve("POST", "", "/t")},
 		{"ServeHTTP 404", serve("GET", "", "/nope")},
+		{"ServeHTTP through an infix catch-all node", serve("GET", "", "/in/1/2/c")},
+		{"Reverse through an infix catch-all node", func(r *fox.Router) { r.Reverse("GET", "", "/in/1/2/b/3") }},
+		{"ServeHTTP static below parameter and catch-all siblings", serve("GET", "", "/x/y/z")},
+		{"Reverse+Lookup static below parameter and catch-all siblings", func(r *fox.Router) {
+			r.Reverse("GET", "", "/x/y")
+			if _, cc, _ := r.Lookup(nil, req("GET", "", "/x/y/z")); cc != nil {
+				cc.Close()
+			}
+		}},
 		{"ServeHTTP 405", serve("PUT", "", "/s/a")},
 		{"ServeHTTP OPTIONS", serve("OPTIONS", "", "/s/a")},
 		{"ServeHTTP OPTIONS *", func(r *fox.Router) {
@@ -249,7 +258,7 @@ func entries() []entry {
 }
 
 // states of the published tree at the time the writer is parked
-var treeStates = []string{"routes", "never-written", "truncated"}
+var treeStates = []string{"routes", "never-written", "truncated", "shallow"}
 
 func build(cfg config) *fox.Router { return buildState(cfg, "routes") }
 
@@ -261,6 +270,15 @@ func buildState(cfg config, state string) *fox.Router {
 	if state == "never-written" {
 		return r
 	}
+	if state == "shallow" {
+		// a shallow tree whose lookups set aside more alternatives than it is deep: two consecutive levels with a
+		// static, a parameter and a catch-all child each; nothing has looked anything up yet when the writer parks
+		hh := func(c fox.Context) { c.Writer().WriteHeader(200) }
+		for _, p := range []string{"/{a}", "/*{b}", "/x/{c}", "/x/*{d}", "/x/y", "/x/y/{e}", "/x/y/*{f}", "/x/y/z"} {
+			r.MustHandle("GET", p, hh)
+		}
+		return r
+	}
 	if state == "truncated" {
 		defer func() { _ = r.Updates(func(t *fox.Txn) error { return t.Truncate() }) }()
 	}
@@ -270,6 +288,12 @@ func buildState(cfg config, state string) *fox.Router {
 	}
 	r.MustHandle("POST", "/s/a", h)
 	r.MustHandle("POST", "/t/", h)
+	// routes sharing an infix catch-all node, and - as the very last write before the experiment - a committed write
+	// below that node (copy-on-write re-creates it; whatever it derives lazily is derived by the first reader)
+	for _, p := range []string{"/in/*{x}/b", "/in/*{x}/c", "/in/*{x}/b/{y}"} {
+		r.MustHandle("GET", p, h)
+	}
+	defer func() { _, _ = r.Update("GET", "/in/*{x}/b", h) }()
 	// a chain of more than 25 nested nodes (iterators switch to a heap-allocated stack beyond a fixed depth)
 	for i := 1; i <= 32; i++ {
 		r.MustHandle("GET", "/deep/"+deepKey[:i], h)
@@ -394,7 +418,7 @@ func main() {
 		if i < 2 {
 			// a router nobody has written to yet, and one whose routes were all removed: requests are answered (404) from
 			// the published empty tree, they do not wait for the first routes to be committed
-			variants = append(variants, variant{config{cfg.name + "/never-written", cfg.opts}, "never-written"}, variant{config{cfg.name + "/truncated", cfg.opts}, "truncated"})
+			variants = append(variants, variant{config{cfg.name + "/never-written", cfg.opts}, "never-written"}, variant{config{cfg.name + "/truncated", cfg.opts}, "truncated"}, variant{config{cfg.name + "/shallow", cfg.opts}, "shallow"})
 		}
 	}
 	for _, vr := range variants {
